@@ -33,6 +33,10 @@ CHECKS = {
     "C10": dict(cat="other", ref="DESIGN.md §4 C10", technique="CrossHair symbolic execution of setcallback hand-over and endmarker logic over frame histories with a symbolic setcallback position",
                 text="Bounded symbolic check over all positions of setcallback in enumerated histories (4 end causes); relies on setcallback and handlers being serialised by the receive lock, which is the real code's own locking; a local close racing setcallback is outside.",
                 note=E1_NOTE + "; the receive lock's mutual exclusion itself is assumed (threading.RLock)"),
+    "C09": dict(cat="model_checking", ref="DESIGN.md §2 E2, §4 C09", engine="E2-py2ts-bmc",
+                technique="bounded model checking in z3 of control-flow automata compiled from the real WorkerPool/Reply methods, schedule = symbolic thread choice per step; counterexamples replayed on the real classes",
+                text="Bounded model checking over all schedules of small scenarios (spawn vs shutdown vs primary thread, results, time-outs, late spawn) for pools with/without primary thread and both thread backends; unwinding assertion and witness per scenario.",
+                note="trusted: the AST->CFA translator (vlib/py2ts.py; validated per run by replaying simulator schedules on the real classes), the hand-written models of Lock/Event/set/list/thread start and of the task bodies, sequential consistency per visible operation, z3; bounds as stated in the evidence"),
 }
 
 NOT_APPLICABLE = [
@@ -69,6 +73,8 @@ def main():
         "engines": [
             {"name": "E1-crosshair", "path": "vlib/chx.py", "serves_properties": sorted(k for k, v in CHECKS.items() if v.get("engine", "E1-crosshair") == "E1-crosshair"),
              "kind_free_text": "CrossHair symbolic execution of real functions, z3 per path, one process per obligation"},
+            {"name": "E2-py2ts-bmc", "path": "vlib/py2ts.py", "serves_properties": sorted(k for k, v in CHECKS.items() if v.get("engine") == "E2-py2ts-bmc"),
+             "kind_free_text": "real Python methods compiled to control-flow automata, bounded model checking of all schedules in z3 (bit-vectors), replay on the real classes"},
         ],
         "checks": checks,
         "not_applicable": sorted(na, key=lambda x: x["property_id"]),
